@@ -360,7 +360,11 @@ def hazards(ctx, world, modes=("vjp", "jvp")):
         A = AxisTaint(world, pos, names)
         A.of(ir.made if e.mode == "vjp" else None)
         A.of(ir.result)
-        used = _mentions(ir.result, A.is_src) or (ir.made is not None and _mentions(ir.made, A.is_src))
+        from ..tutil import expand as _expand
+
+        # (helpers and local closures inlined: a rule whose result is a call of its own nested helper mentions the
+        # axis only inside that helper's body)
+        used = bool(A.sinks) or _mentions(_expand(world.ev, ir.result, ()), A.is_src) or (ir.made is not None and _mentions(_expand(world.ev, ir.made, ()), A.is_src))
         if not used:
             continue
         n += 1
@@ -380,3 +384,126 @@ def hazards(ctx, world, modes=("vjp", "jvp")):
                 "the same call with the axis given as a negative number (e.g. axis=-1 instead of axis=ndim-1)",
             )
     ctx.floor(f"A7 rules using an axis parameter ({'+'.join(modes)})", n, (25 if "vjp" in modes else 0) + (8 if "jvp" in modes else 0))
+
+
+def none_axis(ctx, world, modes=("vjp", "jvp")):
+    """A7.none - for roll / cumsum / repeat / take / sort ... `axis=None` means "the flattened array", which no explicit
+    axis (and no tuple of all axes) reproduces.  On the path where the primitive was called with axis=None, a rule of
+    such a primitive that calls such a function on the (co)tangent has to pass None as well (or have flattened its
+    operand itself): substituting tuple(range(ndim)) moves different elements."""
+    from ..terms import walk as _walk
+    from ..tutil import atom, expand, specialise, unseq
+
+    fl = set(facts.load("axis_none_flattens")["flattens"])
+    keeps = set(facts.load("axis_none_flattens")["shape_preserving"])
+    ctx.describe("A7.none", "in a rule of a NumPy function whose axis=None means 'the flattened array' while the result keeps the argument's shape (roll), every call of such a function receives, on the path where the primitive's axis is None, either None as its axis or an operand the rule has flattened itself (ravel / reshape(-1) / flatten)")
+    n = 0
+    for e in world.table.entries:
+        if e.spec != "maker" or e.mode not in modes or not world.in_numpy_scope(e) or not is_numpy_callable(e.prim) or base_name(e.prim) not in keeps:
+            continue  # (for the flatteners whose result is 1-D when axis=None the cotangent is 1-D too: any axis of it is the flattened array)
+        psig = world.env.signature(e.prim.qual)
+        ir = world.ir(e)
+        if not psig or "axis" not in psig["defaults"] or psig["defaults"]["axis"] is not None or ir is None or not ir.ok:
+            continue
+        k_axis = psig["pos"].index("axis") if "axis" in psig["pos"] else None
+
+        def is_axis_arg(t):
+            return t.op == "arg" and (t.get("name") == "axis" or (k_axis is not None and t.get("index") == k_axis))
+
+        def decide(a):
+            # the valuation "the primitive was called with axis=None"
+            if a.op == "cmp" and a.opname in ("Is", "Eq") and ((is_axis_arg(a.l) and a.r.op == "const" and a.r.value is None) or (is_axis_arg(a.r) and a.l.op == "const" and a.l.value is None)):
+                return True
+            if is_axis_arg(a):
+                return False  # truthiness of None
+            return None
+
+        for root in (ir.made, ir.result):
+            if root is None:
+                continue
+            sp = specialise(unseq(expand(world.ev, root, ())), decide)
+            for t in _walk(sp):
+                if t.op != "call":
+                    continue
+                ref, pre = resolve_callee(world.ev, t)
+                if ref is None or not is_numpy_callable(ref) or base_name(ref) not in fl:
+                    continue
+                qsig = world.env.signature(ref.qual)
+                if not qsig or "axis" not in qsig["pos"] + qsig["kwonly"]:
+                    continue
+                allargs = list(pre) + list(t.args)
+                if any(a.op == "star" for a in allargs) or t.get("dstar"):
+                    continue
+                if "axis" in t.kw:
+                    ax = t.kw["axis"]
+                elif "axis" in qsig["pos"] and qsig["pos"].index("axis") < len(allargs):
+                    ax = allargs[qsig["pos"].index("axis")]
+                else:
+                    ax = None  # left at the callee's default
+                n += 1
+                inst = f"{construct_of(e)} -> {base_name(ref)}"
+                if ax is None:
+                    dflt = qsig["defaults"].get("axis", None)
+                    ok = dflt is None
+                else:
+                    ok = is_axis_arg(ax) or (ax.op == "const" and ax.value is None)
+                if not ok and allargs:
+                    # the rule flattened the operand itself: any axis of a 1-D array is the flattened array
+                    op0 = allargs[0]
+                    r0, _ = resolve_callee(world.ev, op0) if op0.op == "call" else (None, None)
+                    if r0 is not None and is_numpy_callable(r0) and base_name(r0) in ("ravel", "flatten"):
+                        ok = True
+                    elif op0.op == "call" and op0.fn.op == "attr" and op0.fn.name in ("ravel", "flatten"):
+                        ok = True
+                    elif r0 is not None and is_numpy_callable(r0) and base_name(r0) == "reshape" and len(op0.args) >= 2 and ((op0.args[1].op == "const" and op0.args[1].value == -1) or (op0.args[1].op in ("tuple", "list") and len(op0.args[1].elts) == 1)):
+                        ok = True
+                if ok:
+                    ctx.ob("A7.none", inst, True, e.loc)
+                else:
+                    ctx.fail("A7.none", inst, f"{e.mode}:{e.prim_id}|none-axis:{base_name(ref)}", e.loc, f"on the path where {base_name(e.prim)} was called with axis=None (the flattened array) the rule calls {base_name(ref)} with axis={str(ax)[:60]}: an explicit axis moves different elements than the flattened operation did", f"{base_name(e.prim)}(x, ...) without an axis on an array with ndim >= 2")
+    ctx.floor(f"A7.none calls ({'+'.join(modes)})", n, 1 if "vjp" in modes else 0)  # today's JVP table has no such call (roll, cumsum, ... are registered as 'same')
+
+
+def zero_shapes(ctx, world, modes=("vjp", "jvp")):
+    """A7.zero - the clause of A7 that matters for exact zeros: where a rule BUILDS the zero it returns on an
+    independent / empty path (zeros(shape), full(shape, 0), ...), a shape computed from an axis parameter by
+    arithmetic or slicing is a different shape when the axis is written negatively - the zero then lives in the wrong
+    space and silently broadcasts (or empties) whatever it is added to."""
+    from ..tutil import expand
+
+    ctx.describe("A7.zero", "the shape handed to zeros / ones / empty / full inside a rule is not computed from an axis parameter by arithmetic or slice bounds (unless sanitised): such a shape is wrong for a negative axis, and a zero of the wrong shape broadcasts silently")
+    n = 0
+    for e in world.table.entries:
+        if e.spec != "maker" or e.mode not in modes or not world.in_numpy_scope(e):
+            continue
+        ir = world.ir(e)
+        if ir is None or not ir.ok:
+            continue
+        pos, names = axis_param_names(world, e)
+        if not pos and not names:
+            continue
+        probe = AxisTaint(world, pos, names)
+        for root in (ir.made if e.mode == "vjp" else None, ir.result):
+            if root is None:
+                continue
+            from ..terms import walk as _walk
+
+            for t in _walk(expand(world.ev, root, ())):
+                if t.op != "call" or not t.args:
+                    continue
+                ref, pre = resolve_callee(world.ev, t)
+                if ref is None or not is_numpy_callable(ref) or base_name(ref) not in ("zeros", "ones", "empty", "full") or pre:
+                    continue
+                shp = t.kw.get("shape", t.args[0])
+                if not _mentions(shp, probe.is_src):
+                    continue
+                n += 1
+                A = AxisTaint(world, pos, names)
+                A.of(shp)
+                inst = f"{construct_of(e)}|{base_name(ref)}({(norm_text(shp.node) if shp.node is not None else '?')[:40]})"
+                if not A.sinks:
+                    ctx.ob("A7.zero", inst, True, e.loc)
+                else:
+                    kind, txt, line = A.sinks[0]
+                    ctx.fail("A7.zero", inst, f"{e.mode}:{e.prim_id}|zero-shape:{txt}", f"{e.mod.relpath}:{line}", f"the shape of the zero built by this rule uses `{txt}` ({kind}): for a negative axis it is a different shape", "the empty / independent case reached with the axis left at a negative default (e.g. np.diff of a length-1 array, axis=-1)")
+    ctx.floor(f"A7.zero constructor shapes that depend on an axis ({'+'.join(modes)})", n, 1 if "vjp" in modes else 0)
